@@ -58,8 +58,14 @@ impl<T: RealNumber> LBFGS<T> {
             let i = (upper - 1).rem_euclid(self.m);
             let dxi = &state.dx_history[i];
             let dgi = &state.dg_history[i];
-            let scaling = dxi.dot(dgi) / dgi.abs().pow_mut(T::two()).sum();
-            state.s.copy_from(&state.twoloop_q.mul_scalar(scaling));
+            let dgg = dgi.abs().pow_mut(T::two()).sum();
+            if dgg > T::zero() {
+                let scaling = dxi.dot(dgi) / dgg;
+                state.s.copy_from(&state.twoloop_q.mul_scalar(scaling));
+            } else {
+                // the gradient did not change in the last step (slot never filled): no curvature information
+                state.s.copy_from(&state.twoloop_q);
+            }
         } else {
             state.s.copy_from(&state.twoloop_q);
         }
